@@ -6,8 +6,8 @@
 EXTENDS MosSources, TLC, Json
 
 CONSTANTS MaxKeys, MaxPage, Export
-VARIABLES keys, prefixGiven, size, pages, cursor, acc, pc
-svars == <<keys, prefixGiven, size, pages, cursor, acc, pc>>
+VARIABLES keys, prefixGiven, prefixKey, size, pages, cursor, acc, pc
+svars == <<keys, prefixGiven, prefixKey, size, pages, cursor, acc, pc>>
 
 KeySeqs == UNION { { [i \in 1..n |-> [under |-> f[i][1], suf |-> f[i][2], n |-> i]]
                        : f \in [1..n -> BOOLEAN \X {"end", "mid", "none"}] }
@@ -15,23 +15,24 @@ KeySeqs == UNION { { [i \in 1..n |-> [under |-> f[i][1], suf |-> f[i][2], n |-> 
 
 Init ==
   /\ keys \in KeySeqs /\ prefixGiven \in BOOLEAN /\ size \in 1..MaxPage
-  /\ pages = ListingPages(keys, prefixGiven, size)
+  /\ prefixKey \in 0..Len(keys) /\ (prefixKey # 0 => prefixGiven)
+  /\ pages = ListingPages(keys, prefixGiven, prefixKey, size)
   /\ cursor = 1 /\ acc = <<>> /\ pc = "listing"
-  /\ (Export => PrintT(<<"BUCKET", ToJson([keys |-> keys, prefixGiven |-> prefixGiven, size |-> size])>>))
+  /\ (Export => PrintT(<<"BUCKET", ToJson([keys |-> keys, prefixGiven |-> prefixGiven, prefixKey |-> prefixKey, size |-> size])>>))
 
 ListPage ==
   /\ pc = "listing" /\ cursor <= Len(pages)
   /\ acc' = acc \o SelectSeq(pages[cursor], HasSuffix)
   /\ cursor' = cursor + 1
-  /\ UNCHANGED <<keys, prefixGiven, size, pages, pc>>
+  /\ UNCHANGED <<keys, prefixGiven, prefixKey, size, pages, pc>>
 ListDone ==
   /\ pc = "listing" /\ cursor = Len(pages) + 1
   /\ pc' = "done"
-  /\ UNCHANGED <<keys, prefixGiven, size, pages, cursor, acc>>
+  /\ UNCHANGED <<keys, prefixGiven, prefixKey, size, pages, cursor, acc>>
 Next == ListPage \/ ListDone
 Spec == Init /\ [][Next]_svars /\ WF_svars(Next)
 
-Inv_Result == pc = "done" => acc = Listing(keys, prefixGiven)
-Inv_Partial == \A i \in DOMAIN acc : HasSuffix(acc[i]) /\ Matches(acc[i], prefixGiven)
+Inv_Result == pc = "done" => acc = Listing(keys, prefixGiven, prefixKey)
+Inv_Partial == \A i \in DOMAIN acc : HasSuffix(acc[i]) /\ Matches(acc[i], prefixGiven, prefixKey)
 Live_Done == <>(pc = "done")
 =============================================================================
